@@ -433,7 +433,7 @@ def run(ctx: Ctx) -> int:
     ct5 = ctx.func("_typehints:ActionTypeHint._check_type")
     from .util import guard_atoms as _ga5
 
-    seeds_ = [s_ for s_ in walk_local(ct5) if isinstance(s_, ast.Assign) and isinstance(s_.value, ast.Call) and call_leaf(s_.value) == "Namespace" and any(k.arg == "class_path" and "default" in ast.unparse(k.value) for k in s_.value.keywords)]
+    seeds_ = [s_ for s_ in walk_local(ct5) if isinstance(s_, ast.Assign) and isinstance(s_.targets[0], ast.Name) and ".default" in ast.unparse(s_.value) and any(isinstance(t, ast.Call) and call_leaf(t) == "is_subclass_spec" and ".default" in ast.unparse(t) for t, pol in _ga5(s_, stop=ct5))]
     ctx.floor("C05.j-default-class", len(seeds_), 1)
     for s_ in seeds_:
         atoms = {(ast.unparse(t), pol) for t, pol in _ga5(s_, stop=ct5)}
